@@ -1058,6 +1058,20 @@ def replay_arg(viol):
               ("r(functor(_, 7, 1), x, R), showq(R)", "err(type_error(atom,7))"),
               ("r(functor(f(a), g, 1), x, R), showq(R)", "no"), ("r(functor(f(a), f, 2), x, R), showq(R)", "no"),
               ("r(functor(f(a), f, 1), x, R), showq(R)", "yes(x)")]
+    # strings: the first character and the rest, also when the first character is multi-byte or the last
+    cases += [("r(arg(1, \"\u00e9b\", T), T, R), showq(R)", "yes(\u00e9)"),
+              ("r(arg(2, \"\u00e9b\", T), T, R), showq(R)", "yes([b])"),
+              ("r(arg(2, \"\u00e9\", T), T, R), showq(R)", "yes([])"),
+              ("r(arg(2, \"\u20acxy\", T), T, R), showq(R)", "yes([x,y])"),
+              ("r(arg(2, \"a\U0001F600\", T), T, R), showq(R)", "yes(['\U0001F600'])"),
+              ("r(arg(0, \"ab\", T), T, R), showq(R)", "no"), ("r(arg(3, \"ab\", T), T, R), showq(R)", "no"),
+              ("N is 2^60-2^60+2, r(arg(N, \"\u00e9b\", T), T, R), showq(R)", "yes([b])"),
+              ("N is 2^60-2^60+1, r(arg(N, \"\u00e9b\", T), T, R), showq(R)", "yes(\u00e9)"),
+              ("N is 2^60-2^60+3, r(arg(N, \"ab\", T), T, R), showq(R)", "no"),
+              ("r(arg(2, \"abcdefgh\", \"bcdefgh\"), x, R), showq(R)", "yes(x)"),
+              ("r(arg(2, \"abcdefgh\", \"bcdefgx\"), x, R), showq(R)", "no"),
+              ("r(arg(1, \"abc\", b), x, R), showq(R)", "no"),
+              ("r((S = \"abcdefg\", arg(2, S, T1), arg(2, T1, T2), arg(2, T2, T)), T, R), showq(R)", "yes([d,e,f,g])")]
     # the block functor/3 fabricates: distinct unbound arguments, at the boundary arities, usable afterwards
     cases += [("r(functor(T, foo, 1), T, R), showv(R)", "yes(foo(A))"),
               ("r(functor(T, '.', 3), T, R), showv(R)", "yes('.'(A,B,C))"),
